@@ -43,7 +43,7 @@ func init() {
 		skelTarget{Name: "ShellOperator.Start", File: "pkg/shell-operator/operator.go", Recv: "ShellOperator", Func: "Start",
 			Fields: []string{}, Calls: []string{"bootstrapMainQueue", "StartMain", "initAndStartHookQueues", "Start"}},
 	)
-	factFns = append(factFns, factsC03, factsC03w3)
+	factFns = append(factFns, factsC03, factsC03w3, factsC03w4)
 }
 
 // third wave: the key of the per-hook schedule links map, and the locks on the way from the task
@@ -226,4 +226,152 @@ func factsC03(l *leanDefs) {
 	}
 	l.def("c03_operatorQueueLiterals", "List String", leanStrList(ok2), "pkg/shell-operator/operator.go: literal queue names")
 	_ = strings.Join
+}
+
+// fourth wave: which lock is taken while which other lock is held, on the paths of the queue worker
+// (Start, waitForTask), of the events consumer (ManagerEventsHandler.Start: DoWithLock{AddLast}) and of
+// CancelTaskDelay, following calls into the methods of TaskQueue / TaskQueueSet (depth 4). A linear walk
+// in source order: `X.Lock()`/`X.RLock()` adds X to the held set, `X.Unlock()`/`X.RUnlock()` removes it
+// (a deferred unlock keeps it to the end of the function), a function literal is walked where it stands
+// (withLock(func(){…}), DoWithLock(func(){…})).
+func factsC03w4(l *leanDefs) {
+	type meth struct {
+		recv string
+		fd   *ast.FuncDecl
+	}
+	methods := map[string][]meth{}
+	for _, src := range []struct{ file, recv string }{
+		{"pkg/task/queue/task_queue.go", "TaskQueue"}, {"pkg/task/queue/queue_set.go", "TaskQueueSet"}} {
+		f := parse(src.file)
+		if f == nil {
+			continue
+		}
+		for _, d := range f.Decls {
+			fd, ok := d.(*ast.FuncDecl)
+			if !ok || fd.Recv == nil || len(fd.Recv.List) != 1 || fd.Body == nil {
+				continue
+			}
+			t := exprStr(fd.Recv.List[0].Type)
+			if strings.TrimPrefix(t, "*") == src.recv {
+				methods[fd.Name.Name] = append(methods[fd.Name.Name], meth{src.recv, fd})
+			}
+		}
+	}
+	pairs := map[string]bool{}
+	var rows [][2]string
+	note := func(held []string, inner string) {
+		for _, h := range held {
+			k := h + ">" + inner
+			if !pairs[k] {
+				pairs[k] = true
+				rows = append(rows, [2]string{h, inner})
+			}
+		}
+	}
+	var walk func(recv string, body ast.Node, held []string, depth int) []string
+	walk = func(recv string, body ast.Node, held []string, depth int) []string {
+		var deferred map[ast.Node]bool = map[ast.Node]bool{}
+		ast.Inspect(body, func(n ast.Node) bool {
+			switch x := n.(type) {
+			case *ast.DeferStmt:
+				// `defer X.Unlock()` releases at the end: ignore the call; a deferred literal is walked (it runs last)
+				if sel, ok := x.Call.Fun.(*ast.SelectorExpr); ok && (sel.Sel.Name == "Unlock" || sel.Sel.Name == "RUnlock") {
+					deferred[x.Call] = true
+				}
+			case *ast.CallExpr:
+				if deferred[x] {
+					return false
+				}
+				sel, ok := x.Fun.(*ast.SelectorExpr)
+				if !ok {
+					return true
+				}
+				name := sel.Sel.Name
+				if id, ok := sel.X.(*ast.Ident); ok && id.Obj == nil {
+					return true // package-qualified call (time.Since, slog.String, …)
+				}
+				switch name {
+				case "Lock", "RLock":
+					if inner, ok := sel.X.(*ast.SelectorExpr); ok {
+						id := recv + "." + inner.Sel.Name
+						note(held, id)
+						held = append(append([]string(nil), held...), id)
+					}
+					return false
+				case "Unlock", "RUnlock":
+					if inner, ok := sel.X.(*ast.SelectorExpr); ok {
+						id := recv + "." + inner.Sel.Name
+						var nh []string
+						dropped := false
+						for i := len(held) - 1; i >= 0; i-- {
+							if !dropped && held[i] == id {
+								dropped = true
+								continue
+							}
+							nh = append([]string{held[i]}, nh...)
+						}
+						held = nh
+					}
+					return false
+				}
+				// a call of a method of the queue / the queue set: walk its body with what is held now.
+				// The function-literal arguments are walked by that body's call of them (fn(), doFn(…)) —
+				// approximated: the method's own locks are entered first, then the literal is walked inside.
+				cands := methods[name]
+				var m *meth
+				switch {
+				case len(cands) == 1:
+					m = &cands[0]
+				case len(cands) > 1:
+					for i := range cands {
+						if id, ok := sel.X.(*ast.Ident); ok && cands[i].recv == recv && (id.Name == "q" || id.Name == "tqs") {
+							m = &cands[i]
+						}
+					}
+				}
+				if m == nil || depth >= 4 {
+					return true
+				}
+				inside := walk(m.recv, m.fd.Body, held, depth+1)
+				_ = inside
+				// literals passed to withLock / withRLock / DoWithLock / Iterate run under that method's lock
+				lockOf := map[string]string{"withLock": "m", "withRLock": "m", "DoWithLock": "m", "Iterate": "m", "Filter": "m"}
+				for _, a := range x.Args {
+					if fl, ok := a.(*ast.FuncLit); ok {
+						h2 := held
+						if f, ok := lockOf[name]; ok {
+							h2 = append(append([]string(nil), held...), m.recv+"."+f)
+						}
+						// inside the literal the receiver type is the caller's (q.addLast inside AddLast's literal);
+						// a literal given to the set's DoWithLock works on queues: TaskQueue methods resolve by name
+						walk(recv, fl.Body, h2, depth+1)
+					}
+				}
+				return false
+			}
+			return true
+		})
+		return held
+	}
+	for _, start := range []struct{ file, recv, fn, as string }{
+		{"pkg/task/queue/task_queue.go", "TaskQueue", "Start", "TaskQueue"},
+		{"pkg/task/queue/task_queue.go", "TaskQueue", "waitForTask", "TaskQueue"},
+		{"pkg/task/queue/task_queue.go", "TaskQueue", "CancelTaskDelay", "TaskQueue"},
+		{"pkg/task/queue/task_queue.go", "TaskQueue", "AddLast", "TaskQueue"},
+		{"pkg/shell-operator/manager_events_handler.go", "ManagerEventsHandler", "Start", "TaskQueue"},
+	} {
+		fd := findFunc(start.file, start.recv, start.fn)
+		if fd == nil || fd.Body == nil {
+			rows = append(rows, [2]string{"<" + start.recv + "." + start.fn + " not found>", ""})
+			continue
+		}
+		walk(start.as, fd.Body, nil, 0)
+	}
+	sort.Slice(rows, func(i, j int) bool { return rows[i][0]+">"+rows[i][1] < rows[j][0]+">"+rows[j][1] })
+	var parts []string
+	for _, r := range rows {
+		parts = append(parts, "("+strconv.Quote(r[0])+", "+strconv.Quote(r[1])+")")
+	}
+	l.def("c03_lockNesting", "List (String × String)", "["+strings.Join(parts, ", ")+"]",
+		"task_queue.go Start/waitForTask/CancelTaskDelay/AddLast, manager_events_handler.go Start, and the queue / queue-set methods they call: (lock held, lock taken)")
 }
